@@ -185,13 +185,17 @@ func c01Harness(cfg *Cfg) func(x *mc.Exec) {
 			if !k.Accelerated() {
 				return
 			}
-			fam := x.Choose(10, "shape")
+			fam := x.Choose(11, "shape")
 			if !cfg.Thorough && fam >= 3 && (k.Level == -1 || k.Kind == "flate4k" && k.Level > 2) {
 				return // quick tier: the sweeps run on one setting per distinct compressor (default = level 2; 4 KiB levels 3..9 = level 2)
 			}
 			var d []byte
 			var nm string
 			switch fam {
+			case 10: // the deepest trees: Lucas counts over 2..24 byte values (22 values = 64077 bytes fill one Huffman-only block)
+				kk := 2 + x.Choose(23, "lucas")
+				d = pieces.Lucas(kk, cfg.Seed)
+				nm = fmt.Sprintf("lucas(%d)", kk)
 			case 8: // Huffman depth beyond the limit with the longest codes at the very end of the input, 48 consecutive lengths
 				pad := x.Choose(48, "pad")
 				tl := 1 + x.Choose(4, "tail")
